@@ -307,6 +307,12 @@ def run_and_judge(ctx, family, monitor, scenarios, opt='', shards=None, consts='
     k = shards or max(1, min(NCPU, len(scenarios) // 50 + 1))
     parts = [scenarios[i::k] for i in range(k)]
     base = next(_CTR)
+    # where every scenario ran (which process, after which others): a violation that needs what an earlier scenario left in the library's
+    # process-wide state (the payload pool) is replayed with that history (finish)
+    hist = ctx.__dict__.setdefault('hist', {})
+    for i, part in enumerate(parts):
+        for j, sc_ in enumerate(part):
+            hist[id(sc_)] = (part, j)
 
     def one(i):
         sp = ctx.path('scn_%d_%d.ndjson' % (base, i))
@@ -414,6 +420,7 @@ def finish(ctx, family, monitor, by_sid, viols, events, coverage, assumptions, o
         log('KNOWN-FINDING: property=%s %s (%d occurrence(s) in this run, e.g. trace %s)' % (ctx.prop, what, len(vs), vs[0].get('trace')))
     confirmed = []
     unreproduced = []
+    hist0 = dict(ctx.__dict__.get('hist', {}))     # as left by the original run (the replays below register their own)
     rdir = os.path.join(ROOT, 'replays', ctx.prop)
     for sig, vs in sorted(new.items(), key=lambda kv: -len(kv[1])):
         if len(confirmed) >= MAX_CONFIRM:
@@ -432,13 +439,27 @@ def finish(ctx, family, monitor, by_sid, viols, events, coverage, assumptions, o
                 if any(signature(x) == sig for x in rv):
                     hit = True
                     break
+            history = None
+            if not hit and id(sc) in hist0:
+                # not reproduced alone: once more in one process behind the scenarios that preceded it in the original run (state left in
+                # the library's package-level pool by earlier scenarios)
+                part, j = hist0[id(sc)]
+                history = [x for x in part[:j + 1] if x.get('_fam', family) == fam]
+                if 1 < len(history) <= 6000:
+                    rv, _ = run_and_judge(ctx, fam, mon, history, opt=o, shards=1, consts=consts if mon == monitor else '', binary=binary)
+                    hit = any(signature(x) == sig for x in rv)
+                if not hit:
+                    history = None
             if hit:
                 os.makedirs(rdir, exist_ok=True)
                 h = hashlib.sha1((sig + str(sc.get('sid'))).encode()).hexdigest()[:12]
                 rp = os.path.join(rdir, '%s.json' % h)
+                rec = {'property': ctx.prop, 'family': fam, 'monitor': mon, 'opt': o, 'consts': consts if mon == monitor else '',
+                       'scenario': sc, 'violation': v}
+                if history:
+                    rec['history'] = history      # the scenarios to run before it, in one process
                 with open(rp, 'w') as f:
-                    json.dump({'property': ctx.prop, 'family': fam, 'monitor': mon, 'opt': o, 'consts': consts if mon == monitor else '',
-                               'scenario': sc, 'violation': v}, f, indent=1)
+                    json.dump(rec, f, indent=1)
                 confirmed.append((v, rp, len(vs)))
                 ok = True
                 break
@@ -452,6 +473,7 @@ def finish(ctx, family, monitor, by_sid, viols, events, coverage, assumptions, o
         log('VIOLATION property=%s replay=%s' % (ctx.prop, rp))
         log('  what: %s (%d occurrence(s))' % (json.dumps({k: v[k] for k in v if k not in ('prop',)}), n))
     if unreproduced:
-        log('MACHINERY: %d violation signature(s) not reproduced on replay, e.g. %s' % (len(unreproduced), json.dumps(unreproduced[0])))
-        return 2
+        log('%s: %d violation signature(s) not reproduced on replay, e.g. %s' % ('NOTE' if confirmed else 'MACHINERY', len(unreproduced), json.dumps(unreproduced[0])))
+        if not confirmed:
+            return 2          # nothing the verdict could stand on
     return 1 if confirmed else 0
